@@ -103,6 +103,36 @@ Theorem C20_cache_transparent : forall P (E : iengine P) c t r,
 Proof. exact iso_cache_transparent. Qed.
 Print Assumptions C20_cache_transparent.
 
+(* the retry on the env path is what makes it so.  The bridge with the outcome of a compiled program
+   taken as final (iso_eval_final: a cached or freshly compiled program that fails at run time is the
+   answer, "a program that did compile is authoritative") lets instance A decide what instance B is told:
+   A evaluates t on a row rA whose value types specialise the program (== over two ints, x in [1,2] over
+   an int x, upper over a string), the program fails on B's differently typed row rB although the
+   program compiled on rB's own shape runs and returns v - B is told "error" next to A and v alone.
+   The code as written tells B v in both situations, for every sound engine.  Attacked on the
+   implementation by the type-specialised part of the typed-bridge paired family. *)
+Theorem C20_failed_program_final_refuted : forall P (E : iengine P) t rA rB pA pB v,
+  ie_compile E t (iso_shape_of rA) = Some pA -> ie_exec E pA rB = None ->
+  ie_compile E t (iso_shape_of rB) = Some pB -> ie_exec E pB rB = Some v ->
+  fst (iso_eval_final E (snd (iso_eval_final E [] t rA)) t rB) = None /\
+  fst (iso_eval_final E [] t rB) = Some v /\
+  (iso_sound E ->
+   fst (iso_eval_cached E (snd (iso_eval_cached E [] t rA)) t rB) = Some v /\
+   fst (iso_eval_cached E [] t rB) = Some v).
+Proof. exact iso_final_interference. Qed.
+Print Assumptions C20_failed_program_final_refuted.
+
+(* non-vacuity on the concrete engine of the correspondence runs: upper(s), s a string in A's row and
+   NULL in B's *)
+Example C20_failed_program_final_example :
+  let t := [117; 112; 112; 101; 114; 40; 115; 41]%N in
+  let rA := [([115]%N, IStr [97]%N)] in
+  let rB := [([115]%N, INull)] in
+  fst (iso_eval_final iso_eng0 (snd (iso_eval_final iso_eng0 [] t rA)) t rB) = None /\
+  fst (iso_eval_final iso_eng0 [] t rB) = Some (IStr []) /\
+  fst (iso_eval_cached iso_eng0 (snd (iso_eval_cached iso_eng0 [] t rA)) t rB) = Some (IStr []).
+Proof. repeat split; vm_compute; reflexivity. Qed.
+
 (* every OTHER memo table of the process-wide bridge that is keyed by the expression text alone
    (Model/BridgeMemo.v: a decision d : text -> row -> A behind Load / compute-on-this-row / Store): if the
    decision does not look at the row (the preprocessed text, ...), then after ANY history of evaluations by
